@@ -620,6 +620,11 @@ func c36RunHistory(r *vlib.Run, env *c36Env, cfg c36Cfg, an, prefix string, hist
 // request; everything else is a wrong result of an actual rule evaluation.
 func c36PrecedenceClass(res *c36Result, want string) string {
 	if !res.reused {
+		// ruleByNode refreshes a cached suffrage limiter from the suffrage rule set alone when the suffrage state changed
+		if res.cachedBefore == "suffrage" && res.typ == "suffrage" && want != "suffrage" {
+			return "cached-suffrage-refreshed-in-place-hides-" + want
+		}
+
 		return "evaluated-wrong-rule"
 	}
 
